@@ -56,6 +56,12 @@ HOSTILE = {
     'type': ['binary', 'text', 'x', '5'],
     'mimetype': ['text/html', 'x', '5'],
 }
+HOSTILE_KEYS = ['files', 'changes', 'options', 'meta', 'preamble', 'diff',
+                '_level', 'section_id', 'subsections', 'content', 'add_file',
+                'meta_section', 'diff_section', 'preamble_section',
+                'section_name', 'default_options', 'meta_encoding',
+                'preamble_indent', 'diff_type', '__class__', '__dict__',
+                '__slots__', 'generate_stats', 'to_bytes', 'x-y', 'A']
 SOUP = [b'#diffx: version=1.0\n', b'#diffx: encoding=utf-8, version=1.0\n',
         b'#.change:\n', b'#..file:\n', b'#...meta: length=3\n',
         b'#...meta: format=json, length=3\n', b'{}\n', b'#...diff: length=2\n',
@@ -99,6 +105,12 @@ def gen_fault(rng, data, nsec):
     elif k < 8:
         return {'kind': 'delete', 'at': rng.below(n),
                 'n': rng.randint(1, 4)}
+    elif k < 9:
+        # an option named after something the object model has
+        return {'kind': 'set_opt', 'section': rng.below(max(1, nsec)),
+                'key': rng.choice(HOSTILE_KEYS),
+                'value': rng.choice(['1', 'x', 'utf-8', 'json', '0']),
+                'pos': rng.below(3)}
     elif k < 15:
         key = rng.choice(sorted(HOSTILE))
         f = {'kind': 'set_opt', 'section': rng.below(max(1, nsec)),
